@@ -38,6 +38,14 @@ func genCountCase(r *Rng, tier string) CountCase {
 			}
 		}
 		cnf = append(cnf, genKSat(r, n, r.Range(0, 3), 2)...)
+		for i := 0; i < r.Range(0, 3) && len(cnf) > 0; i++ { // the same unit clause several times
+			for _, cl := range cnf {
+				if len(cl) == 1 && r.Bool() {
+					cnf = append(cnf, []int{cl[0]}, []int{cl[0]})
+					break
+				}
+			}
+		}
 		return CountCase{Kind: "cnf", NbVars: n + r.Intn(3), Clauses: shuffleCnf(r, cnf)}
 	case 2, 3, 4: // under-constrained CNF: many models
 		n := r.Range(2, 10)
@@ -177,9 +185,35 @@ func runCountCase(o *Oracle, d json.RawMessage, oc *Outcome) {
 	if len(want) >= 2 {
 		oc.Nontrivial = true
 	}
-	// 1. CountModels
+	// 1. CountModels, with the per-round contract of GS.Enum.enum_exact checked on every round:
+	// the model found satisfies the problem and the blocks so far, makes the decisions true, and
+	// every model of problem + blocks that makes the decisions true agrees with it
 	s1 := solver.New(pb)
+	cur := append([]Lin{}, sem...)
+	rounds := 0
+	s1.VerifSetEnumHook(func(model []int, blocking []int) {
+		rounds++
+		if rounds > 40 || len(model) != n || len(oc.Failures) > 0 {
+			return
+		}
+		dec := make([]int, len(blocking))
+		for i, l := range blocking {
+			dec[i] = -l
+		}
+		a := o.Ask(fmt.Sprintf("enumround %d | %s | %s | %s", n, encProblem(cur), encInts(model), encInts(dec)))
+		oc.Corr++
+		if a != "1" {
+			oc.Fail("corr", "enum-round-contract", "solver.CountModels", "round %d: model %v with decisions %v does not meet the contract of GS.Enum (answer %s) for problem+blocks %v", rounds, model, dec, a, cur)
+		}
+		if len(blocking) > 0 {
+			cur = append(cur, clauseLin(blocking))
+		}
+	})
 	got := s1.CountModels()
+	s1.VerifSetEnumHook(nil)
+	if rounds > 1 {
+		oc.Tag("rounds>1")
+	}
 	if got != len(want) {
 		oc.Fail("spec", "count", "solver.CountModels", "CountModels = %d, the problem has %d models over %d variables", got, len(want), n)
 	}
